@@ -89,6 +89,39 @@ def seq_family(tier):
     return out
 
 
+def probe_shape(pn, g, a, b):
+    """j0.. (pn INTEGERs), c CHOICE OPTIONAL, i0.. (g INTEGERs), a BOOLEANs (sorted before INTEGER in the map), b [n] NULLs (after)"""
+    return seq([("j%d" % i, I, F) for i in range(pn)] + [("c", CH_XY, T)] + [("i%d" % i, I, F) for i in range(g)] +
+               [("b%d" % i, B, F) for i in range(a)] + [("n%d" % i, ctx(10 + i, N), F) for i in range(b)])
+
+
+def probe_family(tier):
+    """for every size of the group of INTEGER entries and every entry of the group: a SEQUENCE on which the C library's
+    bsearch() (emulated: glibc_bsearch) returns exactly that entry for the lookup (INTEGER, edx) made when the untagged
+    CHOICE at edx is absent.  pn > 0: entries of the group that lie before edx (the `el_no < edx` test)."""
+    out = []
+    want = [(0, g) for g in ((2, 3, 4, 5) if tier == "quick" else (2, 3, 4, 5, 6, 7))] + [(1, 3), (2, 3)] + ([(1, 5), (3, 4)] if tier != "quick" else [])
+    itag = tagnum("UNIVERSAL", 2)
+    for pn, g in want:
+        for o in range(pn, pn + g):          # entries before edx never compare equal
+            found = None
+            for total in range(0, 14):
+                for a in range(0, total + 1):
+                    b = total - a
+                    t = probe_shape(pn, g, a, b)
+                    mp = expected_map(resolve(t, "IMPLICIT", {}))
+                    hit = glibc_bsearch(len(mp), seq_cmp(mp, itag, pn))
+                    first = min(i for i, e in enumerate(mp) if e[0] == itag)
+                    if hit is not None and hit - first == o:
+                        found = t
+                        break
+                if found:
+                    break
+            if found:
+                out.append(("CP%dG%dE%d" % (pn, g, o), found))
+    return out
+
+
 # tags of the big CHOICE / SET maps: all classes, numbers around the octet boundaries; declaration order scrambled
 def tag_pool():
     pool = [None] * 4          # the four universal leaf types first
@@ -176,7 +209,7 @@ def resolve2(t, default, env):
 
 def modules(tier):
     """-> [MT1 (SEQUENCE + CHOICE families; modgen-compatible), MT2 (SET family; text, trees with 'S')]"""
-    d1 = seq_family(tier) + choice_family(tier)
+    d1 = seq_family(tier) + probe_family(tier) + choice_family(tier)
     env = dict(d1)
     m1 = {"name": "MT1", "default": "IMPLICIT", "defs": d1, "trees": {n: resolve(t, "IMPLICIT", env) for n, t in d1},
           "text": module_text("MT1", "IMPLICIT", d1)}
